@@ -17,6 +17,10 @@ SeriesFails(ev) ==
     IF ev.out # "ret" THEN {"raised_" \o ev.out}
     ELSE IF ev.bad # <<>> THEN {"ion_missing_or_duplicated"}
     ELSE
+    (* the number and label an ion carries are those of its span *)
+    (IF \E q \in 1..Len(ev.labels) : LET f == ev.labels[q] IN
+           f.num # NumberText(f.t, n, f.s, f.e) \/ f.label # LabelText(f.t, f.z, NumberText(f.t, n, f.s, f.e), "", 0)
+     THEN {"ion_number_or_label_is_not_that_of_its_span"} ELSE {}) \cup
     (* b_i + y_(n-i) = M + 2 protons *)
     (IF \E i \in 1..(n - 1) : ~FWithin(FAdd(ev.b[i][1], ev.y[i + 1][1]), FAdd(ev.M, FMulInt(Proton, 2)), Rel)
         THEN {"b_plus_y_is_not_M_plus_2_protons"} ELSE {})
